@@ -310,6 +310,19 @@ def run(ctx):
         return ctx.finish("proof", {"evaluations": 0, "distinct_nontrivial": 0, "rule": "-", "samples": []})
     # (B,C) kernel check + axiom audit
     broken += ctx.obligations("JanetModel.Props.C20", THEOREMS)
+    if broken and fd_facts:
+        # name the descriptor / child sites that differ from the table the model was last proved against (committed Gen/Fds.lean)
+        try:
+            import subprocess
+            ref = subprocess.run(["git", "-C", VERIF, "show", "HEAD:lean/JanetModel/Gen/Fds.lean"], stdout=subprocess.PIPE).stdout.decode()
+            refkeys = set(re.findall(r'^  \("[^"]*", "([^"]*)", "(create|close|wrap|raise)", "((?:[^"\\]|\\.)*)"', ref, re.M))
+            cur = set((fn, k, key.replace("\\", "\\\\").replace('"', '\\"')) for _, fn, k, key, _ in fd_facts["fd"])
+            added, removed = sorted(cur - refkeys), sorted(refkeys - cur)
+            if added or removed:
+                broken.append("descriptor call sites differ from the table the model mirrors: added %s; removed %s" % (added[:6], removed[:6]))
+                ctx.say(broken[-1])
+        except Exception as e:  # diagnosis only
+            ctx.say("site diff unavailable: %s" % e)
     if not quick:
         ok, log = ctx.leanchecker("JanetModel.Props.C20")
         if not ok:
